@@ -86,9 +86,9 @@ def update_args(draw, fault=False):
         fault_slot = draw(st.sampled_from(cands))
     for s in slots:
         if s == "unset_tags":
-            args[s] = draw(st.sampled_from(["a", "b", ["a"], ["a", "b"], ["zz"], ["t x", "a"]]))
+            args[s] = draw(st.sampled_from(["a", "b", ["a"], ["a", "b"], ["zz"], ["t x", "a"], "ab", "xa", ["ab"]]))  # "ab": a plain string that merely contains other keys
         elif s == "unset_fields":
-            args[s] = draw(st.sampled_from(["a", "f", ["a"], ["a", "f"], ["zz"], ["_t"]]))
+            args[s] = draw(st.sampled_from(["a", "f", ["a"], ["a", "f"], ["zz"], ["_t"], "af", "_ta", ["af"]]))
         elif s == fault_slot:
             kind = draw(st.sampled_from(["fn_raise", "fn_invalid"]))
             j = draw(st.integers(1, 4))
